@@ -101,7 +101,7 @@ def gengrid_events(ctx, names, recs):
         cell, L = realise(recs[c], nprng)
         combos = list(itertools.product(lengths, (True, False), (True, False), (True, False)))
         rng.shuffle(combos)
-        for (length, suggest, tr, xfast) in combos[: (10 if ctx.quick else 40)]:
+        for (length, suggest, tr, xfast) in combos[: (14 if ctx.quick else 50)]:
             cfg = dict(crystal=c, length=length, suggest=suggest, tr=tr, xfast=xfast)
             try:
                 g = GeneralizedRegularGridPoints(cell, length, suggest=suggest, is_time_reversal=tr, x_fastest=xfast)
@@ -212,8 +212,8 @@ def bz_events(ctx, names, recs):
     nprng = np.random.default_rng(ctx.seed + 23)
     events = []
     skipped = 0
-    nlat = 10 if ctx.quick else 60
-    nq = 22 if ctx.quick else 40
+    nlat = 14 if ctx.quick else 80
+    nq = 16 if ctx.quick else 40
     for _ in range(nlat):
         c = rng.choice(names)
         G = np.array(recs[c]["G"], dtype=np.int64)
@@ -290,7 +290,7 @@ def bz_events(ctx, names, recs):
 
 
 def bz_validate(ctx, events):
-    K, Dm = (3, 4) if ctx.quick else (5, 6)
+    K, Dm = (4, 4) if ctx.quick else (6, 6)
     body = ",\n".join(to_tla({k: v for k, v in e.items() if not k.startswith("_")}) for e in events)
     half = Dm // 2
     mc = ("---- MODULE MC_BZReloc ----\nEXTENDS BZReloc\n"
@@ -298,8 +298,8 @@ def bz_validate(ctx, events):
           "ReducedForms(K) == {G \\in {SymMat(a, b, c, f, e, d) : a \\in 1..K, b \\in 1..K, c \\in 1..K,\n"
           "   f \\in -(K \\div 2)..(K \\div 2), e \\in -(K \\div 2)..(K \\div 2), d \\in -(K \\div 2)..(K \\div 2)} : Niggli(G)}\n"
           "ModelCases == {[id |-> -1, kind |-> \"model\", G |-> g, D |-> %d, x |-> <<p1, p2, p3>>] :\n"
-          "   g \\in ReducedForms(%d), p1 \\in -%d..%d, p2 \\in -%d..%d, p3 \\in -%d..%d}\n"
-          "MCCases == ModelCases \\cup {%s}\n====\n" % (Dm, K, half, half, half, half, half, half, body))
+          "   g \\in ReducedForms(%d), p1 \\in 0..%d, p2 \\in -%d..%d, p3 \\in -%d..%d}\n"
+          "MCCases == ModelCases \\cup {%s}\n====\n" % (Dm, K, half, half, half, half, half, body))
     cfg = ("INIT Init\nNEXT Next\nCONSTANT Cases <- MCCases\nCHECK_DEADLOCK FALSE\n"
            + "".join("INVARIANT %s\n" % i for i in BZ_MACH + BZ_IMPL + BZ_CONF))
     res = ctx.tlc("MC_BZReloc", cfg_text=cfg, extra_files={"MC_BZReloc.tla": mc}, requirement=False, workers=6,
@@ -379,8 +379,9 @@ def drive(obj, hist, ref, expect_eig):
             expected = 0
             continue
         f = np.array(f)
+        # compared as signed squares (eigenvalues): acoustic modes at Gamma are sqrt(noise)
         match = [k for k in range(len(ref["f"])) if f.shape == ref["f"][k].shape and
-                 float(np.abs(f - ref["f"][k]).max()) <= 1e-8 * fmax]
+                 float(np.abs(f * np.abs(f) - ref["f"][k] * np.abs(ref["f"][k])).max()) <= 1e-8 * fmax * fmax]
         if not match:
             obs.append(-3)
         else:
@@ -546,7 +547,7 @@ def run(ctx):
     selfchecks(ctx, gg, bz, pgs)
     ctx.assumptions += [
         "eigenfrequencies/eigenvectors are evaluated by phonopy; a yield is identified with the stored q-point whose "
-        "reference frequencies (a run Mesh) it equals to 1e-8 relative",
+        "reference frequencies (a run Mesh) it equals (signed squares, 1e-8 of the largest)",
         "the standardized primitive cell chosen by spglib enters as logged data (transformation matrix); the "
         "specification checks it is a primitive basis of the exact crystal and carries the exact point group",
         "the mesh numbers derived from the length (estimate_supercell_matrix heuristics) are not part of the requirement",
